@@ -317,19 +317,24 @@ type typeGuesser struct {
 }
 
 func (g *typeGuesser) Guess() (SchemaType, error) {
-	m := map[SchemaType]func() bool{
-		SchemaTypeString:  g.isString,
-		SchemaTypeInteger: g.isInteger,
-		SchemaTypeFloat:   g.isFloat,
-		SchemaTypeBoolean: g.isBoolean,
-		SchemaTypeObject:  g.isObject,
-		SchemaTypeArray:   g.isArray,
-		SchemaTypeNull:    g.isNull,
+	// The order matters: a quoted token is a string whatever it contains
+	// (isFloat looks for a '.' only).
+	guessers := []struct {
+		t  SchemaType
+		fn func() bool
+	}{
+		{SchemaTypeString, g.isString},
+		{SchemaTypeInteger, g.isInteger},
+		{SchemaTypeFloat, g.isFloat},
+		{SchemaTypeBoolean, g.isBoolean},
+		{SchemaTypeObject, g.isObject},
+		{SchemaTypeArray, g.isArray},
+		{SchemaTypeNull, g.isNull},
 	}
 
-	for t, fn := range m {
-		if fn() {
-			return t, nil
+	for _, c := range guessers {
+		if c.fn() {
+			return c.t, nil
 		}
 	}
 	return SchemaTypeUndefined, ErrUnknownSchemaType
